@@ -137,7 +137,7 @@ func (tr *Translator) jsonDecls() {
 		(not (isObj jFalse)) (not (jIsArr jFalse)) (not (jIsStr jFalse)) (distinct jNull jTrue jFalse)
 		(forall ((v JV)) (! (and (=> (isObj v) (and (not (jIsArr v)) (not (jIsStr v)))) (=> (jIsArr v) (not (jIsStr v)))) :pattern ((isObj v)) :pattern ((jIsArr v)) :pattern ((jIsStr v))))))`)
 	u.decl("oCnt_nonneg", "(assert (forall ((j JV) (k String)) (! (>= (oCnt j k) 0) :pattern ((oCnt j k)))))")
-	tr.trusted["encoding/json, swag.ConcatJSON, jsonpointer.GetForToken: tag-directed model (struct fields by JSON name, omitempty, embedded promotion, custom codecs called; member names matched exactly, not case-insensitively)"] = true
+	tr.trusted["encoding/json, swag.ConcatJSON, jsonpointer.GetForToken: tag-directed model (struct fields by JSON name, omitempty, embedded promotion, custom codecs called; member names matched exactly, not case-insensitively; a present member overwrites the target member - encoding/json merges into non-empty composite members (existing slice elements, non-nil pointers, maps), which the model does not follow: see the known finding on path items with $ref and siblings)"] = true
 }
 
 func typeKey(t types.Type) string {
